@@ -51,9 +51,9 @@ func (*prop) Assumptions() []string {
 }
 func (*prop) MinDistinct(tier string) int64 {
 	if tier == "thorough" {
-		return 15_000
+		return 5000
 	}
-	return 400
+	return 200
 }
 
 type batch struct {
